@@ -251,9 +251,42 @@ func c09CompileUnderPressure(fn *ir.Function) (c *ir.Function, err error, panick
 	c = c09Clone(fn)
 	c.Nodes = append(pre, c.Nodes...)
 	f := ir.NewFile()
+	// The judged function is not always alone in its file: 0-2 small functions that compile stand before it and 0-2 after it
+	// (a pass that only looks at the first or the last function of a file, or stops early, is visible this way).
+	c09PipeCount++
+	before, after := c09PipeShapes[c09PipeCount%len(c09PipeShapes)][0], c09PipeShapes[c09PipeCount%len(c09PipeShapes)][1]
+	for k := 0; k < before; k++ {
+		f.AddSection(c09Filler(k))
+	}
 	f.AddSection(c)
+	for k := 0; k < after; k++ {
+		f.AddSection(c09Filler(before + k))
+	}
 	err, panicked = safely(func() error { return pass.Compile.Execute(f) })
+	c09PipePos[itoa(before)+"+"+itoa(after)]++
 	return c, err, panicked, ""
+}
+
+var c09PipeCount int
+var c09PipeShapes = [][2]int{{0, 0}, {1, 0}, {0, 1}, {1, 1}, {2, 0}, {0, 2}, {2, 2}}
+var c09PipePos = map[string]int{}
+
+// c09Filler is a small function that every pass accepts: a forward branch over one instruction and a return.
+func c09Filler(k int) *ir.Function {
+	fn := ir.NewFunction("filler" + itoa(k))
+	add := func(opcode string, ops ...operand.Op) {
+		if inst, err := x86.VerifBuild(opcode, nil, ops); err == nil && inst != nil {
+			fn.AddInstruction(inst)
+		} else {
+			c09BuildFailed[opcode]++
+		}
+	}
+	add("MOVQ", operand.I32(int32(k)), reg.RAX)
+	add("JMP", operand.LabelRef("out"))
+	add("ADDQ", reg.RAX, reg.RAX)
+	fn.AddLabel("out")
+	add("RET")
+	return fn
 }
 
 // c09LivenessReached: every instruction carries live sets, i.e. the pipeline got past LabelTarget, CFG and Liveness.
@@ -384,6 +417,9 @@ func init() {
 		// comment-only functions, long functions
 		for k := 0; k < *f.n/2; k++ {
 			run("named", c09NamedFunc(r.fork(), stats))
+		}
+		for pos, c := range c09PipePos {
+			stats["pipe:file:"+pos] += c
 		}
 		stats["build_failed"] = 0
 		for opc, c := range c09BuildFailed {
